@@ -179,6 +179,15 @@ def classify(case, main, glib):
     def ret(key):
         return key, desc
 
+    # -- the event sequences are the same to the end: only the outcome of a top-level call differs
+    if em is None and eg is None:
+        om, og = main[0], glib[0]
+        j = next((j for j in range(min(len(om), len(og))) if om[j] != og[j]), None)
+        desc["outcomes"] = [om, og]
+        # a handler raised ExitMainLoop under a process_signals() / execute_new_loop() called from OUTSIDE run():
+        # MainLoop lets it escape that top-level call (outcome 1), GLibEventLoop swallowed it in _run_handlers (outcome 0)
+        if j is not None and om[j] == 1 and og[j] == 0 and any(e[0] == HEND and e[3] == [1] for e, _ in nm):
+            return ret("glib-exit-not-unwinding")
     # -- misuse: the only level was closed
     if h.emptied:
         return ret("glib-close-last-level")
